@@ -271,6 +271,38 @@ def one_config(ctx, rep, cfg):
             else:
                 rep.violation("PAIRING", g + " mask" + sfx, "getter masks the address with %s, expected !BITS=%d" % (masks, mask), f.loc())
 
+    # clone / drop strip the tag with the same mask as the getters (an over-wide mask moves the pointer off the Arc
+    # allocation whenever the allocator returns 8- but not 16-aligned blocks)
+    def _masks_of(f):
+        out = []
+        cl = [prog.fns[k] for k in ctx.e1(cfg).cg.closures_of.get(f.key, [])]
+        for c in [f] + cl:
+            nots = {}
+            for b in c.blocks:
+                for s_ in b["st"]:
+                    if s_["s"] == "=" and s_["rv"]["k"] == "un" and s_["rv"]["op"] == "Not" and "v" in s_["rv"]["a"]:
+                        nots[s_["lhs"]["l"]] = (1 << 64) - 1 - s_["rv"]["a"]["v"]
+                    if s_["s"] == "=" and s_["rv"]["k"] == "bin" and s_["rv"]["op"] == "BitAnd":
+                        for o in (s_["rv"]["a"], s_["rv"]["b"]):
+                            if o.get("o") == "c":
+                                out.append(int(o["vu"]) if "vu" in o else o.get("v"))
+                            elif o.get("l") in nots and "p" not in o:
+                                out.append(nots[o["l"]])
+        return out
+    if has_alloc:
+        for nm in ("<%s as core::clone::Clone>::clone" % REPR, "<%s as core::ops::Drop>::drop" % REPR):
+            f = prog.fns.get("jiff::" + nm)
+            if f is None:
+                rep.anchor_missing(nm + sfx)
+                continue
+            ms = [m for m in _masks_of(f) if m != bits]          # `& BITS` is the tag read
+            short = nm.split("::")[-1]
+            if len(ms) >= 2 and all(m == mask for m in ms):
+                rep.ok("PAIRING", short + " mask" + sfx, how="%d pointer maskings, all addr & !BITS" % len(ms))
+            else:
+                rep.violation("PAIRING", short + " mask" + sfx, "%s strips the tag with mask(s) %s, expected only !BITS=%d (two Arc arms)"
+                              % (short, [hex(m) if isinstance(m, int) else m for m in ms], mask), f.loc())
+
     # ---------------- DISPATCH
     n_dispatch = 0
     getter_paths = {REPR + "::" + g: tags[t] for g, t in GETTER_TAG.items()}
